@@ -18,7 +18,8 @@ def harness_spec(D, periodic, omp=False, wide=False, starpu=False):
         flags += ["-DUSE_OMP", "-fopenmp"]
         srcs.append("mock_gomp.cpp")
     if starpu:
-        flags += ["-DUSE_STARPU", "-I" + os.path.join(common.VERIF, "harness", "mock_starpu")]
+        flags += ["-DUSE_STARPU", "-I" + os.path.join(common.VERIF, "harness", "mock_starpu"),
+                  "-DUSE_SPECX", "-I" + os.path.join(common.VERIF, "harness", "mock_specx")]
         srcs.append("mock_starpu.cpp")
     return {"name": name, "sources": srcs, "flags": flags}
 
